@@ -26,6 +26,8 @@ From CF Require Import C12.Plan.
 From CF Require Import C12.Proofs_sequence.
 From CF Require Import C12.Proofs_read.
 From CF Require Import C12.Refute.
+From CF Require Import C12.Callbacks.
+From CF Require Import C12.Proofs_callbacks.
 Open Scope Z_scope.
 
 (* Success means the image is in flash, byte for byte, at start * page_size — provided positive
@@ -312,3 +314,46 @@ Theorem C12_target_list_ignored_observation :
     calls_of (flash_plan platform k0 k1 arts sels) = calls_of (flash_plan platform k0 k1 arts []).
 Proof. exact target_list_ignored. Qed.
 Print Assumptions C12_target_list_ignored_observation.
+
+(* ------------------------------------------------------------------ UI callbacks are part of the input *)
+
+(* For EVERY callback configuration (progress_cb installed or not; terminate_flashing_cb absent or answering any
+   sequence of booleans), every fault pattern, geometry and image: _internal_flash ends with exactly the outcome,
+   downlink queue, script position and frames of the run without callbacks — in particular the same abort on a failed
+   flash-write — or, only if the terminate callback answered True, with "Flashing terminated" after a prefix of
+   those frames. *)
+Theorem C12_callbacks_do_not_change_flashing :
+  forall p term addr ps bp fp sp override image q scr o' q' s' tr lg o q0 s0 tr0,
+  internal_flash_cb false (mkCb p term) addr ps bp fp sp override image q scr = (o', q', s', tr, lg) ->
+  internal_flash addr ps bp fp sp override image q scr = (o, q0, s0, tr0) ->
+  (o' = OB o /\ q' = q0 /\ s' = s0 /\ tr = tr0) \/
+  (o' = OTerminated /\ (exists rest, tr0 = tr ++ rest) /\ term_has_true term).
+Proof. exact internal_flash_cb_vs_plain. Qed.
+Print Assumptions C12_callbacks_do_not_change_flashing.
+
+(* Hence every theorem above about internal_flash holds verbatim with progress_cb installed. *)
+Theorem C12_progress_cb_irrelevant : forall p term addr ps bp fp sp override image q scr,
+  ~ term_has_true term ->
+  exists lg,
+    internal_flash_cb false (mkCb p term) addr ps bp fp sp override image q scr =
+    (let '(o, q', s', tr) := internal_flash addr ps bp fp sp override image q scr in (OB o, q', s', tr, lg)).
+Proof. exact internal_flash_cb_same. Qed.
+Print Assumptions C12_progress_cb_irrelevant.
+
+(* Whole flash() plans: same outcome (abort or completion), script position, frames and calls with progress_cb. *)
+Theorem C12_session_same_with_progress_cb : forall pr p scr, run_plan_cb pr p scr = run_plan p scr.
+Proof. exact run_plan_cb_same. Qed.
+Print Assumptions C12_session_same_with_progress_cb.
+
+(* REFUTATION of "raise only in the console branch of the error report" (seeded change C12-i): 12 bytes, 4-byte pages,
+   1 buffer page, second flash-write answered negatively.  Without progress_cb the variant aborts like the code; with
+   progress_cb it sends two more frames, reports success, and the flash does not hold the image. *)
+Theorem C12_raise_only_without_progress_cb_refuted :
+  let '(o_ok, _, _, tr_ok) := internal_flash 255 4 1 8 1 None cbImage [] cbScript in
+  let '(o_bug, _, _, tr_bug, _) := internal_flash_cb true (mkCb true None) 255 4 1 8 1 None cbImage [] cbScript in
+  let '(o_con, _, _, tr_con, _) := internal_flash_cb true (mkCb false None) 255 4 1 8 1 None cbImage [] cbScript in
+  o_ok = WriteFailed /\ o_con = OB WriteFailed /\ tr_con = tr_ok /\
+  o_bug = OB Done /\ length tr_bug = (length tr_ok + 2)%nat /\
+  zslice (t_flash (deliver cbT tr_bug)) 4 12 <> cbImage.
+Proof. exact raise_only_without_progress_refuted. Qed.
+Print Assumptions C12_raise_only_without_progress_cb_refuted.
